@@ -189,7 +189,9 @@ def run(spec):
                 for (a, b_, k) in m["deps"]:
                     if k != G.FS:
                         continue
-                    pt, tt = ix.task[st.order[a]], ix.task[st.order[b_]]
+                    pt, tt = ix.task.get(st.order[a]), ix.task.get(st.order[b_])
+                    if pt is None or tt is None:
+                        continue  # the task list itself was damaged: reported by the structure comparison below
                     lp = [int(x) for x in pt.state_record_list]
                     lt = [int(x) for x in tt.state_record_list]
                     if not spec.get("reverse"):
